@@ -121,6 +121,8 @@ def valkey(v):
         return ('L', id(v))
     if isinstance(v, DictV):
         return ('D', tuple(sorted((repr(k), valkey(x)) for k, x in v.d.items())))
+    if isinstance(v, FileV):
+        return ('F', v.name)
     return ('?', repr(v))
 
 
@@ -180,6 +182,8 @@ class LoopSummary(object):
         self.entry = {}         # {var: value on loop entry}
         self.test = None
         self.breaks = []        # conditions under which the body breaks
+        self.cursor_delta = {}  # file name -> bytes consumed by one execution of the body
+        self.cursor_start = None
         self.env_pre = None     # environment at the start of the body (carried variables = pre symbols)
         self.env_post = None
 
@@ -201,6 +205,7 @@ class Evaluator(object):
         self._stack = []
         self.unknown_count = 0
         self.assumed = []
+        self.files = []                     # FileV objects created by open()
         self.last_env = None                # final environment of the outermost function evaluated last
         self.ext_summaries = {}             # external callable name -> function(ev, args, kwargs, node)
         self.rat_type_is_float = False      # type(<symbolic number>) folds to float (used where inputs are documented floats)
@@ -613,7 +618,17 @@ class Evaluator(object):
             for n in tgt_names:
                 body_env[n] = Rat.sym('%s@L%d' % (n, idx))
         summ.env_pre = _copy_env(body_env)
+        live = [f for f in self.files]
+        starts = {}
+        for fobj in live:
+            starts[id(fobj)] = Rat.sym('cursor(%s)@L%d' % (fobj.name, idx))
+            fobj.cursor = starts[id(fobj)]
         out = self.exec_block(st.body, body_env, func)
+        summ.cursor_delta = {}
+        for fobj in live:
+            summ.cursor_delta[fobj.name] = fobj.cursor - starts[id(fobj)]
+            summ.cursor_start = starts[id(fobj)]
+            fobj.cursor = Rat.sym('cursor(%s)@afterL%d' % (fobj.name, idx))
         summ.env_post = out.env
         if out.env is not None:
             for v in assigned:
@@ -923,7 +938,7 @@ class Evaluator(object):
             if a is not None and a.kind == 'sym':
                 return Rat.sym('%s.%s' % (a.name, attr))
             return BoundExt(o, attr)
-        if isinstance(o, (Str, Tup, DictV, CallV)):
+        if isinstance(o, (Str, Tup, DictV, CallV, FileV)):
             return BoundExt(o, attr)
         if isinstance(o, Ref):
             t = o.target
@@ -1208,6 +1223,10 @@ class Evaluator(object):
                     except Exception:
                         pass
                 return alg.opaque('int', (argkey(a[0]),))
+            if short == 'open':
+                f = FileV((alg.fmt(a[0], 1) if isinstance(a[0], Rat) else str(argkey(a[0]))) if a else '?')
+                self.files.append(f)
+                return f
             if short == 'range':
                 ks = [_const_int(x) for x in a]
                 if all(k is not None for k in ks) and 1 <= len(ks) <= 3:
@@ -1295,6 +1314,26 @@ class Evaluator(object):
         return alg.opaque('ext:' + name, tuple(argkey(x) for x in a) + tuple('%s=%r' % (k, argkey(v)) for k, v in sorted(kwargs.items())))
 
     def ext_method(self, obj, attr, args, kwargs, node):
+        if isinstance(obj, FileV):
+            if attr == 'seek' and args and isinstance(args[0], Rat):
+                whence = _const_int(args[1]) if len(args) > 1 else 0
+                if whence == 1:
+                    obj.cursor = obj.cursor + args[0]
+                elif whence == 0:
+                    obj.cursor = args[0]
+                else:
+                    self.diag('unknown', node, 'seek relative to the end of file')
+                    obj.cursor = self.unknown('seek from end', node)
+                return NONE
+            if attr == 'read' and len(args) == 1 and isinstance(args[0], Rat):
+                off = obj.cursor
+                obj.reads.append((off, args[0]))
+                obj.cursor = obj.cursor + args[0]
+                return alg.opaque('bytes', (alg.norm(off), args[0]))
+            if attr == 'tell':
+                return obj.cursor
+            if attr in ('close', '__enter__', '__exit__'):
+                return NONE
         if isinstance(obj, Mat):
             if attr == 'transpose' and not args:
                 return self.mat_transpose(obj, node)
@@ -1487,6 +1526,15 @@ class Evaluator(object):
         if isinstance(b, Mat) and isinstance(a, Rat):
             return Mat(_mat_map(b.data, lambda x: self.binop(op, a, x, node)), b.shape)
         return self.unknown('array operation', node)
+
+
+class FileV(Val):
+    """an open binary file: only the cursor is modelled; read(n) yields an opaque bytes atom keyed by (offset, n)"""
+
+    def __init__(self, name, cursor=None):
+        self.name = name
+        self.cursor = cursor if cursor is not None else C(0)
+        self.reads = []      # (offset Rat, size Rat)
 
 
 class Unbound(Val):
